@@ -9,7 +9,7 @@ if os.path.isdir(f'{ROOT}/evidence'):
     shutil.rmtree(f'/tmp/evidence_backup{os.getpid()}', ignore_errors=True); shutil.copytree(f'{ROOT}/evidence', f'/tmp/evidence_backup{os.getpid()}')
 PROPS = {'vec_ext': ['C13', 'C02'], 'suggestion.rs': ['C03'], 'lib.rs': ['C13'], 'lexing': ['C01', 'C02'], 'plain_english': ['C01', 'C02'], 'edit_distance': ['C15', 'C01'], 'span.rs': ['C01', 'C03'],
          'number.rs': ['C17', 'C02'], 'patterns': ['C01', 'C03'], 'pattern_linter': ['C01', 'C03'], 'document.rs': ['C02', 'C01'], 'merged_dictionary': ['C15'], 'mask': ['C02', 'C01'],
-         'pos_conv': ['C08'], 'jsdoc': ['C01'], 'currency.rs': ['C02', 'C13', 'C01'], 'correct_number_suffix': ['C17', 'C03'], 'mutable_dictionary': ['C15'],
+         'pos_conv': ['C08'], 'jsdoc': ['C01', 'C04'], 'javadoc': ['C04', 'C01'], 'git_commit_parser': ['C04', 'C01'], 'harper-html': ['C04', 'C01'], 'currency.rs': ['C02', 'C13', 'C01'], 'correct_number_suffix': ['C17', 'C03'], 'mutable_dictionary': ['C15'],
          'diagnostics.rs': ['C08'], 'ellipsis_length': ['C03'], 'document_state': ['C08'],
          'lint_group.rs': ['C11', 'C03', 'C12'], 'ignored_lints': ['C14', 'C16'], 'title_case': ['C18'], 'harper-stats': ['C19'], 'harper-wasm': ['C16', 'C11'], 'spell_check': ['C06', 'C03'], 'parsers/mask.rs': ['C04'], 'mask/mod.rs': ['C04'], 'go.rs': ['C04', 'C01'], 'unit.rs': ['C04', 'C01'],
          'harper-tree-sitter': ['C04', 'C01'], 'long_sentences': ['C03', 'C12'], 'an_a': ['C03', 'C11'], 'dictionary.dict': ['C06', 'C15'], 'phrase_corrections': ['C11', 'C03', 'C12'], 'harper-literate-haskell': ['C04', 'C01']}
